@@ -48,6 +48,7 @@ type sched struct {
 	Steps    []string  `json:"steps"`
 	Rand     *randSpec `json:"rand"`
 	Src      string    `json:"src"`
+	Slack    int       `json:"slack"` // unite: spare capacity of every written slice (cap = len + slack)
 }
 
 type heldObs struct {
@@ -158,7 +159,7 @@ func newDisc(t *testing.T, s *sched, mm *memMap, keep *[][]int) *disc {
 			t.Fatal(err)
 		}
 		d.prep = func(first, n int) (func(), int) {
-			sl := make([]int, n)
+			sl := make([]int, n, n+s.Slack)
 			for i := range sl {
 				sl[i] = first + i
 			}
